@@ -213,7 +213,7 @@ func runWorkers(u *unit, bin, prop, outDir string, seed uint64, workers int, bud
 	var wg sync.WaitGroup
 	oc := &runOutcome{hashes: map[string]struct{}{}}
 	var mu sync.Mutex
-	hardLimit := budget + budget/2 + 90*time.Second
+	hardLimit := 2*budget + 150*time.Second
 	for w := 0; w < workers; w++ {
 		wg.Add(1)
 		go func(w int) {
@@ -583,7 +583,29 @@ func main() {
 		_ = os.MkdirAll(filepath.Dir(dst), 0o755)
 		rb, _ := os.ReadFile(viol.Replay)
 		_ = os.WriteFile(dst, rb, 0o644)
+		replayKnown := false
+		if f != nil {
+			for _, k := range loadKnown() {
+				applies := k.Property == prop
+				for _, a := range k.AlsoFor {
+					if a == prop {
+						applies = true
+					}
+				}
+				if applies && k.Status == "known" && (k.Class == "" || k.Class == f.Class) {
+					if re, err := regexp.Compile(k.SigRe); err == nil && re.MatchString(f.Sig) {
+						replayKnown = true
+					}
+				}
+			}
+		}
 		switch {
+		case replayKnown:
+			fmt.Fprintf(os.Stderr, "check: worker reported %s/%s but replay in a fresh process ended in a recorded known finding (%s/%s): the harness is not deterministic for this case; replay kept at %s\n",
+				viol.Failure.Class, viol.Failure.Sig, f.Class, f.Sig, dst)
+			ev["violations"] = 0
+			ev["replay_unconfirmed"] = dst
+			code = 2
 		case f == nil:
 			fmt.Fprintf(os.Stderr, "check: worker reported %s but replay in a fresh process passed (non-deterministic harness); replay kept at %s\n%s\n",
 				viol.Failure.Class, dst, tail(out, 40))
